@@ -56,21 +56,26 @@ using S = vf_sv<V>;
 using E = vf_elem<T>;
 #define MAXM (VF_CAP + VF_LEN + 2)
 
-// ---- instrumented iterator over a harness-owned array of T
+#ifdef VF_SRCINT
+using SRCT = int;    // the range yields ints: value_type is constructible from them (explicit constructor) but NOT assignable
+#else
+using SRCT = T;
+#endif
+// ---- instrumented iterator over a harness-owned array
 template <typename Cat, bool STRICT>
 struct vf_iter {
   using iterator_category = Cat;
-  using value_type = T;
+  using value_type = SRCT;
   using difference_type = std::ptrdiff_t;
-  using pointer = const T *;
-  using reference = const T&;
-  uint32_t pos; const T *base;
+  using pointer = const SRCT *;
+  using reference = const SRCT&;
+  uint32_t pos; const SRCT *base;
   vf_iter() noexcept : pos(0), base(nullptr) {}
-  vf_iter(uint32_t p, const T *b) noexcept : pos(p), base(b) {}
+  vf_iter(uint32_t p, const SRCT *b) noexcept : pos(p), base(b) {}
   reference operator*() const { if (vf_fault(VF_K_DEREF)) throw vf_exc{3}; uint32_t p = vf_stream_deref(pos, STRICT); return base[p <= VF_LEN ? p : VF_LEN]; }
   pointer operator->() const { return &**this; }
   vf_iter& operator++() { if (vf_fault(VF_K_INC)) throw vf_exc{3}; pos = vf_stream_inc(pos, STRICT); return *this; }
-  struct proxy { const T *p; reference operator*() const { return *p; } };
+  struct proxy { const SRCT *p; reference operator*() const { return *p; } };
   // post-increment of a single-pass iterator: the value is read now (counts as this position's dereference)
   proxy operator++(int) { proxy r{&**this}; ++*this; return r; }
   friend bool operator==(const vf_iter& a, const vf_iter& b) { if (vf_fault(VF_K_CMP)) throw vf_exc{3}; vf_stream_cmp(a.pos, STRICT); vf_stream_cmp(b.pos, STRICT); return a.pos == b.pos; }
@@ -139,6 +144,13 @@ extern "C" void vf_main(void) {
     T *src = reinterpret_cast<T *>(srcbuf);
     for (unsigned i = 0; i < VF_LEN; ++i) E::make(src + i, ys[i]);
     T arg = vf_mk<T>::of(x); (void)arg;
+#ifdef VF_SRCINT
+    int isrc[VF_LEN + 1]; for (unsigned i = 0; i < VF_LEN; ++i) isrc[i] = (int)ys[i];
+    isrc[VF_LEN] = 0;
+#define SRCARR isrc
+#else
+#define SRCARR src
+#endif
     const int32_t harness_objs = E::instrumented ? VF_LEN + 1 : 0;
     vf_stream_init(len);
     uint32_t gen_calls = 0; (void)gen_calls;
@@ -175,9 +187,9 @@ extern "C" void vf_main(void) {
     vf_fault_arm(VF_FMASK, fat1, VF_NFAULTS >= 2 ? fat2 : 0);
     try {
 #if VF_ITK == 3
-      const T *first = src, *last = src + len;
+      const SRCT *first = SRCARR, *last = SRCARR + len;
 #else
-      It first(0, src), last(len, src);
+      It first(0, SRCARR), last(len, SRCARR);
 #endif
       (void)first; (void)last;
 #if VF_OP == OP_ctor_range
